@@ -227,7 +227,7 @@ def validate(rep, traces, label, expect_reject=None):
     cfg = os.path.join(cfgp, label + ".cfg")
     from .containers import ALL_ACTS, INVARIANTS
     with open(cfg, "w") as f:
-        f.write("INIT TInit\nNEXT TNext\nCONSTANTS MaxObj = %d  MaxGrp = %d  Depth = 100000\n Keys = {\"a\",\"b\",\"c\"}\n Acts = {%s}\n IdxUse = {}\n OpsUse = {}\n ObjUse = {}\n GrpUse = {}\n"
+        f.write("INIT TInit\nNEXT TNext\nCONSTANTS MaxObj = %d  MaxGrp = %d  Depth = 100000\n Keys = {\"a\",\"b\",\"c\"}\n Acts = {%s}\n IdxUse = {}\n OpsUse = {}\n ObjUse = {}\n GrpUse = {}\n TiesPool = FALSE\n"
                 % (MAXOBJ, MAXGRP, ",".join('"%s"' % a for a in ALL_ACTS)))
         f.write("CONSTRAINT Mark\nPOSTCONDITION Post\nCHECK_DEADLOCK FALSE\n" + "".join(f"INVARIANT {i}\n" for i in INVARIANTS if i != "OneRowSelection"))
     res = common.run_tlc("TraceContainers", cfg, env={"TRACE_FILE": path}, workers=1, timeout=1500)
